@@ -89,6 +89,12 @@ C02Exists ==
   ELSE "undecided"
 
 ClosureV == TLCEval(Closure)
+\* C11's hypothesis: training distances pairwise distinct and non-zero, and for every query its distances to the
+\* training samples are distinct from each other and from every training distance
+WVals == {W[e] : e \in Pairs}
+TieFreeAll == /\ TieFree
+              /\ \A qi \in 1..Len(Tr.q) : /\ \A t, u \in Nodes : t # u => Tr.q[qi].dx[t] # Tr.q[qi].dx[u]
+                                            /\ \A v \in Nodes : Tr.q[qi].dx[v] \notin WVals /\ Tr.q[qi].dx[v] > 0
 Bad ==
   LET D == ClosureV
       b(cond, name) == IF cond THEN {} ELSE {name}
@@ -109,6 +115,15 @@ Bad ==
   \cup b(TieFree => \A i \in Labeled : lab[i] = L[i], <<"C04", "tiefree_training_sample_lost_own_label">>)
   \cup b(TieFree => \A qi \in 1..Len(Tr.q) : Tr.q[qi].self # 0 => Tr.q[qi].res = L[Tr.q[qi].self],
        <<"C04", "tiefree_resubstitution_returned_another_label">>)
+  \cup b(("perm" \in DOMAIN Tr /\ TieFreeAll) =>
+            /\ cost = [i \in Nodes |-> Tr.perm.cost[i]] /\ proto = SeqSet(Tr.perm.proto)
+            /\ lab = [i \in Nodes |-> Tr.perm.lab[i]]
+            /\ \A qi \in 1..Len(Tr.q) : Tr.perm.qres[qi] = Tr.q[qi].res,
+       <<"C11", "permuting_the_training_order_changed_cost_prototype_label_or_prediction">>)
+  \cup b("alt" \in DOMAIN Tr => \A ai \in 1..Len(Tr.alt) :
+            /\ proto = SeqSet(Tr.alt[ai].proto) /\ lab = [i \in Nodes |-> Tr.alt[ai].lab[i]]
+            /\ \A qi \in 1..Len(Tr.q) : Tr.alt[ai].qres[qi] = Tr.q[qi].res,
+       <<"C11", "monotone_rescaling_of_the_metric_changed_prototype_label_or_prediction">>)
   \cup b(\A i \in Nodes : cost[i] < INF, <<"C15", "sample_not_conquered">>)
   \cup b("tw" \in DOMAIN Tr => /\ cost = [i \in Nodes |-> Tr.tw.cost[i]] /\ pred = [i \in Nodes |-> Tr.tw.pred[i]]
                                 /\ lab = [i \in Nodes |-> Tr.tw.lab[i]] /\ proto = SeqSet(Tr.tw.proto)
@@ -119,7 +134,7 @@ ASSUME /\ TLCSet(1, {}) /\ TLCSet(2, {}) /\ TLCSet(3, {}) /\ TLCSet(4, {}) /\ TL
 Add(r, x) == TLCSet(r, TLCGet(r) \cup {x})
 JudgeP == /\ LET B == Bad IN B = {} \/ Add(1, <<tid, B>>)
           /\ (C02Exists # "undecided" \/ Add(5, tid))
-          /\ (~TieFree \/ Add(4, tid))
+          /\ (~(IF "perm" \in DOMAIN Tr THEN TieFreeAll ELSE TieFree) \/ Add(4, tid))
           /\ Add(6, tid)
 JudgeM == IF pc = "trained"
           THEN (IF ~FinOK THEN Add(3, <<tid, "final_state_differs">>)
